@@ -568,8 +568,92 @@ class G:
         return [self.dummy(h), self.dummy(g), ("fiber", inner), ("print", CALL(h)),
                 ("fiber", [("print", CALL(g)), ("print", CALL(h))]), ("print", CALL(g))]
 
+    def rec_fn(self, f, other=None):
+        """fn f(n) { if n < 3 { return 1 + f(n + 1) [+ other(n + 1)]; } else { return 0; } }  - f refers to (captures) itself"""
+        n = self.fresh()
+        e = ADD(L(1), CALL(f, ADD(V(n), L(1))))
+        if other is not None:
+            e = ADD(e, CALL(other, ADD(V(n), L(2))))
+        return ("fun", f, [n], [("if", V(n), L(3), [("return", e)], [("return", L(0))])])
+
+    def t_selfrec(self):
+        """a self-recursive (or mutually recursive, through a holder) local fn declared in a NESTED block / loop body / function
+        body: it captures its own variable inside its own initialiser; it escapes (outer variable or vec), is called after the
+        block has ended AND after new locals took over its slot"""
+        r = self.rng
+        self.tags.add("selfrec_local_fn")
+        f, g, pad = self.fresh(), self.fresh(), self.fresh()
+        how = r.choice(["outer", "vec"])
+        holder = self.fresh()
+        pre = [("decl", holder, ("vec",))] if how == "vec" else [self.dummy(holder, 1)]
+        esc = (lambda x: ("vpush", holder, V(x))) if how == "vec" else (lambda x: ("assign", holder, V(x)))
+        call = (lambda a: ("callidx", holder, 0, [a])) if how == "vec" else (lambda a: CALL(holder, a))
+        mutual = r.random() < 0.4
+        inner = []
+        if mutual:
+            # hb holds g; f calls itself and (through hb) g, g calls itself and f
+            self.tags.add("selfrec_mutual")
+            hb = self.fresh()
+            inner += [self.dummy(hb, 1), self.rec_fn(f, hb), self.rec_fn(g, f), ("assign", hb, V(g))]
+        else:
+            inner += [self.rec_fn(f)]
+        inner += [esc(f), ("print", CALL(f, L(r.randint(0, 2))))]
+        where = r.choice(["block", "block", "loop", "fnblock", "block2"])
+        self.tags.add("selfrec_in:" + where)
+        if where == "block":
+            scope = [("block", inner)]
+        elif where == "block2":
+            scope = [("block", [("decl", self.fresh(), self.lit()), ("block", inner)])]
+        elif where == "loop":
+            scope = [("loop", self.fresh(), 1, inner)]
+        else:
+            k = self.fresh()
+            scope = [("fun", k, [], [("block", inner), ("return", L(0))]), ("expr", CALL(k))]
+        # afterwards new locals reuse the slots: a function and plain variables
+        o, n2 = self.fresh(), self.fresh()
+        after = [("fun", o, [n2], [("return", ADD(L(10), V(n2)))]), ("decl", self.fresh(), L(77)),
+                 ("print", call(L(r.randint(0, 2)))), ("print", CALL(o, L(2))), ("print", call(L(0)))]
+        body = ([("decl", pad, self.lit())] if r.random() < 0.7 else []) + scope + after
+        outer = r.choice(["block", "fn", "block"])
+        if outer == "block":
+            return pre + [("block", body)] + [("print", call(L(1)))]
+        k2 = self.fresh()
+        return pre + [("fun", k2, [], body), ("expr", CALL(k2))] + [("print", call(L(1)))]
+
+    def t_adjacent(self):
+        """the FIRST local of an inner block is captured and sits directly above a captured local of the enclosing scope that
+        stays live: after the inner block has ended the declaring scope writes / the closure reads and vice versa"""
+        r = self.rng
+        self.tags.add("captured_first_local_above_captured_local")
+        add, peek, total, x, getx, n = [self.fresh() for _ in range(6)]
+        # holders first (lower slots); the closures over `total` are created inside blocks of their own so that no temporary
+        # stays between `total` and the inner block's first local
+        body = [self.dummy(add, 1), self.dummy(peek)]
+        if r.random() < 0.5:
+            body.append(("decl", self.fresh(), self.lit()))
+        body.append(("decl", total, self.lit()))
+        body.append(("block", self.publish(add, [n], [("assign", total, ADD(V(total), V(n))), ("return", V(total))])))
+        inner = [("decl", x, L(r.randint(1, 5)))] + [("lam", getx, [], [("return", V(x))])]
+        if r.random() < 0.5:
+            inner.append(("assign", x, ADD(V(x), L(1))))
+        inner.append(("print", CALL(add, CALL(getx))))
+        depth = r.randint(1, 3)
+        blk = ("block", inner)
+        body.append(blk)
+        body += [("assign", total, ADD(V(total), L(10))), ("print", CALL(add, L(0))), ("print", V(total)),
+                 ("block", self.publish(peek, [], [("return", V(total))])),
+                 ("print", CALL(add, L(5))), ("print", V(total)), ("assign", total, ADD(V(total), L(100))),
+                 ("print", CALL(peek)), ("print", CALL(add, L(0)))]
+        for _ in range(depth - 1):
+            body = [("decl", self.fresh(), self.lit()), ("block", body)] if r.random() < 0.5 else [("block", body)]
+        self.tags.add("adjacent_depth:%d" % depth)
+        if r.random() < 0.5:
+            k = self.fresh()
+            return [("fun", k, [], body), ("expr", CALL(k))]
+        return [("block", body)]
+
     TEMPLATES = ["t_shared", "t_many", "t_deep", "t_params", "t_loop", "t_shadow", "t_escape", "t_exits", "t_throw",
-                 "t_reuse", "t_fiber"]
+                 "t_reuse", "t_fiber", "t_selfrec", "t_adjacent"]
 
     def program(self, allow_throw=True):
         r = self.rng
@@ -813,6 +897,9 @@ def trace_groups(steps, fs):
                 if code[s["pc"] + 3 + 2 * k]:
                     ev.append([2, s["base"] + code[s["pc"] + 4 + 2 * k]])
                     info["captures"] += 1
+            if ev:
+                # closure_impl pushes the new closure BEFORE it captures (a local fn may capture the very slot it is stored in)
+                ev.insert(0, [1, s["fiber"], s["len"] + 1] + s["u"])
         elif op == CLOSEUP:
             ev.append([3])
             info["closes"] += 1
